@@ -7,6 +7,16 @@ TRUSTED_COMMON = [
 ]
 
 PROPS = {
+    "C07": {
+        "title": "Event admission",
+        "design_ref": "DESIGN.md §3 C07",
+        "technique": "Lean 4 invariant proof (admission invariant over all insertion attempts; coordinates = ancestry) on the operational model + differential correspondence with hostile event variations + invariant oracle on the real store",
+        "level_text": "Proof (Lean 4) for the model: for every sequence of insertion attempts on a node started from genesis (valid events mixed with arbitrary others) every stored event has a verifying signature bit, a known creator, both parents present, self-parent = creator's latest event and index = its index + 1 (0 for a first event); hence no two events at one height, gap-free indexes, and the code's index arithmetic for ancestry equals reachability (ancestor_eq_reachability); a refused event leaves the state unchanged. The model's admission function is tied to InsertEvent by running both on valid DAGs with 14 kinds of hostile variations and comparing accept/reject and the rejection kind; the invariant is also evaluated on the real store after every attempt.",
+        "level_note": "Trusted: Lean kernel; hand-written operational model tied by correspondence; event id = SHA-256 of the body (non-empty, injective) as hypotheses hid/hhash; signature validity is an input bit from the real Verify; nodes reset by fast-sync (chains starting at a root) are covered by correspondence only.",
+        "trusted_base": ["the operational model Babble.HG (lean/Babble/Model/Hashgraph.lean), tied to src/hashgraph by correspondence on accept/reject kinds and consensus observations",
+                         "signature validity as an input bit computed by the real Event.Verify (covers the event signature and every internal-transaction signature)"],
+        "assumptions": ["event id = hash of the body: non-empty and injective on (creator, index) (SHA-256 collision freedom)", "ecdsa.Verify is sound (signature bit is an input)"],
+    },
     "C01": {
         "title": "Agreement",
         "design_ref": "DESIGN.md §3 C01",
